@@ -63,6 +63,9 @@ def main():
         # normalise the command to run inside the worktree
         for pre in ("/tmp/seed-%s" % name.split("-")[0], "/tmp/seed2-%s" % name.split("-")[0], "/tmp/seed3-%s" % name.split("-")[0]):
             demo_cmd = demo_cmd.replace(pre, wt)
+        # seeders sometimes put the copy of the demo into the command; the demo is already in place here
+        import re as _re
+        demo_cmd = _re.sub(r"cp\s+\S*demo_test\.go\s+\S+\s*(&&|;)\s*", "", demo_cmd)
         if "-count" not in demo_cmd:
             demo_cmd = demo_cmd.replace("go test", "go test -count=1", 1)
         rc, out = sh(demo_cmd, cwd=wt)
